@@ -330,7 +330,7 @@ class SInt:
 
 
 def is_sym(v):
-    return isinstance(v, (SInt, SBool, SBV, SFloatTab, SStr, SBytes, Union, SReal))
+    return isinstance(v, (SInt, SBool, SBV, SFloatTab, SStr, SBytes, Union, SReal, SFP))
 
 
 def zi(x):
@@ -644,6 +644,96 @@ def bv_to_int(x):
     if x.signed:
         return SInt(z3.BV2Int(x.e, True), -(1 << (x.w - 1)), (1 << (x.w - 1)) - 1)
     return SInt(z3.BV2Int(x.e, False), 0, (1 << x.w) - 1)
+
+
+class SFP:
+    """IEEE-754 binary64 value (z3 FloatingPoint theory, round-to-nearest-even), with a float interval."""
+
+    __slots__ = ("e", "lo", "hi")
+
+    def __init__(self, e, lo=None, hi=None):
+        self.e = e
+        self.lo = lo
+        self.hi = hi
+
+    def __repr__(self):
+        return "SFP(<%d> in [%s,%s])" % (self.e.get_id(), self.lo, self.hi)
+
+
+FP64 = z3.Float64()
+RNE = z3.RNE()
+
+
+def zfp(x):
+    """z3 Float64 of float / int / SInt / SFP."""
+    if isinstance(x, SFP):
+        return x.e
+    if isinstance(x, bool):
+        x = int(x)
+    if isinstance(x, (int, float)):
+        if isinstance(x, int) and abs(x) > (1 << 53):
+            raise Unsupported("integer too large for exact double conversion")
+        return z3.FPVal(float(x), FP64)
+    if isinstance(x, SInt):
+        if INT_BITS:
+            return z3.fpSignedToFP(RNE, x.e, FP64)
+        return z3.fpRealToFP(RNE, z3.ToReal(x.e), FP64)
+    raise Unsupported("not a double: %r" % (x,))
+
+
+def fp_bounds(x):
+    if isinstance(x, SFP):
+        return x.lo, x.hi
+    if isinstance(x, (int, float)) and not isinstance(x, bool):
+        return float(x), float(x)
+    if isinstance(x, SInt):
+        return (None if x.lo is None else float(x.lo)), (None if x.hi is None else float(x.hi))
+    return None, None
+
+
+def fp_binop(op, a, b):
+    """op in '+','-','*','/' on doubles (RNE)."""
+    x, y = zfp(a), zfp(b)
+    e = {"+": z3.fpAdd, "-": z3.fpSub, "*": z3.fpMul, "/": z3.fpDiv}[op](RNE, x, y)
+    (al, ah), (bl, bh) = fp_bounds(a), fp_bounds(b)
+    lo = hi = None
+    try:
+        if None not in (al, ah, bl, bh):
+            import math
+            if op == "+":
+                lo, hi = al + bl, ah + bh
+            elif op == "-":
+                lo, hi = al - bh, ah - bl
+            elif op == "*":
+                ps = [al * bl, al * bh, ah * bl, ah * bh]
+                lo, hi = min(ps), max(ps)
+            elif op == "/" and (bl > 0 or bh < 0):
+                ps = [al / bl, al / bh, ah / bl, ah / bh]
+                lo, hi = min(ps), max(ps)
+            if lo is not None:   # outward rounding by one ulp keeps the interval sound
+                lo, hi = math.nextafter(lo, -math.inf), math.nextafter(hi, math.inf)
+    except (OverflowError, ZeroDivisionError):
+        lo = hi = None
+    return SFP(e, lo, hi)
+
+
+def fp_trunc(x):
+    """int(<double>): round toward zero.  The result interval comes from the float interval."""
+    import math
+    if x.lo is None or x.hi is None or not (-(2.0 ** 62) < x.lo and x.hi < 2.0 ** 62):
+        raise Unsupported("int() of a double whose range is not known to fit 64 bits: %r" % (x,))
+    bv = z3.fpToSBV(z3.RTZ(), x.e, z3.BitVecSort(64))
+    if INT_BITS:
+        e = z3.Extract(INT_BITS - 1, 0, bv) if INT_BITS < 64 else bv
+    else:
+        e = z3.BV2Int(bv, True)
+    return mk_int(e, math.trunc(x.lo), math.trunc(x.hi))
+
+
+def fp_cmp(op, a, b):
+    x, y = zfp(a), zfp(b)
+    e = {"<": z3.fpLT, "<=": z3.fpLEQ, ">": z3.fpGT, ">=": z3.fpGEQ, "==": z3.fpEQ, "!=": z3.fpNEQ}[op](x, y)
+    return mk_bool(z3.simplify(e))
 
 
 class SReal:
@@ -989,6 +1079,10 @@ def merge(c, a, b, grec=None):
     if isinstance(a, SReal) or isinstance(b, SReal):
         if isinstance(a, (SReal, float)) and isinstance(b, (SReal, float)):
             return SReal(z3.If(c, zr(a), zr(b)))
+    if isinstance(a, SFP) or isinstance(b, SFP):
+        if isinstance(a, (SFP, float)) and isinstance(b, (SFP, float)):
+            (al, ah), (bl, bh) = fp_bounds(a), fp_bounds(b)
+            return SFP(z3.If(c, zfp(a), zfp(b)), None if None in (al, bl) else min(al, bl), None if None in (ah, bh) else max(ah, bh))
     if isinstance(a, float) and isinstance(b, float):
         return SFloatTab([(c, a), (neg(c), b)])
     # heterogeneous: union
